@@ -13,7 +13,7 @@
 # limitations under the License.
 """Deduping DNA generator."""
 
-from typing import Any, Tuple, Union
+from typing import Any, Iterable, Tuple, Union
 
 from pyglove.core import symbolic
 from pyglove.core import typing as pg_typing
@@ -130,6 +130,24 @@ class Deduping(DNAGenerator):
   def _feedback(self, dna: DNA, reward: Union[float, Tuple[float]]) -> None:
     self.generator.feedback(dna, reward)
     self._add_dna_to_cache(dna, reward)
+
+  def recover(
+      self,
+      history: Iterable[Tuple[DNA, Union[None, float, Tuple[float]]]]
+  ) -> None:
+    """Recovers the states of both the wrapped generator and the cache."""
+    history = list(history)
+    # NOTE: the wrapped generator recovers through its own `recover`, which
+    # may do more than replaying the history one by one (e.g. Evolution).
+    self.generator.recover(history)
+    for dna, reward in history:
+      # Same accounting as `_propose`/`_feedback`: generators that take
+      # feedback account a DNA when its reward arrives.
+      if reward is not None or not self.needs_feedback:
+        self._add_dna_to_cache(dna, reward)
+      self._num_proposals += 1
+      if reward is not None:
+        self._num_feedbacks += 1
 
   def _replay(self, trial_id: int, dna: DNA, reward: Any) -> None:
     self.generator._replay(trial_id, dna, reward)  # pylint: disable=protected-access
